@@ -227,6 +227,7 @@ func (s *Cron) Add(j *Job) error {
 			return Exists
 		}
 	}
+	verifPoint("Cron.Add.afterCheck")
 
 	if err := s.set(j); err != nil {
 		log.Printf("Cron.Add set error: %v", err)
